@@ -112,12 +112,13 @@ MapConfigs  == {k \in IdentConfigs \cup ImageConfigs \cup MappedConfigs \cup KLC
 
 \* configurations on which the conversion automaton runs (small; step grids away from float coincidences)
 MappedConv ==
-    {k \in MappedConfigs : \/ k.maps = <<"affine">> /\ k.kind \in {"ident", "image"} /\ k.cls \notin {"Default1D", "Default2D"}
-                                \/ k.maps = <<"cube">> /\ (k.kind = "step" \/ (k.kind = "kl" /\ k.n = 4 /\ k.m \in {0, 2}))
-                                \/ k.maps = <<"cube">> /\ k.cls \in {"Image2D_F", "Image2D_C"}
-                                \/ k.maps = <<"exp">> /\ (k.cls \in {"Image2D_F", "Discrete"} \/ (k.kind = "kl" /\ k.n = 3 /\ k.m = 1))
-                                \/ k.maps = <<"affine", "cube">> /\ (k.cls = "Continuous2D" \/ (k.kind = "kl" /\ k.n = 3 /\ k.m = 0))
-                                \/ k.maps = <<"cube", "affine">> /\ (k.cls = "Image2D_C" \/ (k.kind = "step" /\ k.s = 2))}
+    {k \in MappedConfigs :
+        \/ k.maps = <<"affine">> /\ k.kind \in {"ident", "image"} /\ k.cls \notin {"Default1D", "Default2D"}
+        \/ k.maps = <<"cube">> /\ (k.kind = "step" \/ (k.kind = "kl" /\ k.n = 4 /\ k.m \in {0, 2}))
+        \/ k.maps = <<"cube">> /\ k.cls \in {"Image2D_F", "Image2D_C"}
+        \/ k.maps = <<"exp">> /\ (k.cls \in {"Image2D_F", "Discrete"} \/ (k.kind = "kl" /\ k.n = 3 /\ k.m = 1))
+        \/ k.maps = <<"affine", "cube">> /\ (k.cls = "Continuous2D" \/ (k.kind = "kl" /\ k.n = 3 /\ k.m = 0))
+        \/ k.maps = <<"cube", "affine">> /\ (k.cls = "Image2D_C" \/ (k.kind = "step" /\ k.s = 2))}
 ConvConfigs ==
     {k \in IdentConfigs : k.n \in {1, 3}}
     \cup {k \in ImageConfigs : k.r <= 3 /\ k.cc <= 3 /\ (k.r + k.cc) \in {3, 4, 5}}
@@ -188,38 +189,91 @@ KLCoef(i) == Q(1, 12 * i * i)                                          \* i 1-ba
 \* number of coefficients the cache holds: intended = the current mode count; deviation: the one of the first grid
 KLCached(k) == IF Dev = "stalekl" /\ k.n2 > 0 THEN (IF k.m = 0 THEN k.n ELSE IMin(k.m, k.n)) ELSE ParDim(k)
 
-\* ---- the four maps on one value (nested sequences of rationals) ----------------------------------------
-MapLeaf(x)  == RAdd(RMul(R(2), x), One)
-IMapLeaf(y) == RDiv(RSub(y, One), R(2))
+\* ---- entry-wise maps of MappedGeometry -----------------------------------------------------------------
+\* Irr: "a real number the rational lattice cannot hold" (a cube root of a non-cube).  It only arises when a
+\* deviation is switched on; NoIrr states that the intended design never leaves the lattice.
+Irr == <<1, 0>>
+IsIrr(x) == x[2] = 0
+RECURSIVE CbrtFloor(_, _, _)
+CbrtFloor(a, lo, hi) == IF lo = hi THEN lo
+                        ELSE LET mid == (lo + hi + 1) \div 2
+                             IN IF mid * mid * mid <= a THEN CbrtFloor(a, mid, hi) ELSE CbrtFloor(a, lo, mid - 1)
+ICbrt(a) == LET r == CbrtFloor(a, 0, 1290) IN IF r * r * r = a THEN r ELSE -1          \* a >= 0;  1290^3 < 2^31
+RCbrt(y) == LET rn == ICbrt(Abs(y[1]))  rd == ICbrt(y[2])                              \* y is normalised: n/d is a cube iff n and d are
+            IN IF rn < 0 \/ rd < 0 THEN Irr ELSE <<(IF y[1] < 0 THEN -rn ELSE rn), rd>>
+ExactMap(mp) == mp \in {"affine", "cube"}
+MapLeaf(mp, x)  == IF IsIrr(x) THEN Irr
+                   ELSE CASE mp = "affine" -> RAdd(RMul(R(2), x), One)
+                          [] mp = "cube"   -> RMul(x, RMul(x, x))
+IMapLeaf(mp, y) == IF IsIrr(y) THEN Irr
+                   ELSE CASE mp = "affine" -> RDiv(RSub(y, One), R(2))
+                          [] mp = "cube"   -> RCbrt(y)
+\* the stack <<m1, .., mj>>: forward mj(..m1(x)); inverse im1(..imj(y))
+RECURSIVE LeafAll(_, _)
+LeafAll(ms, x)  == IF ms = <<>> THEN x ELSE LeafAll(Tail(ms), MapLeaf(Head(ms), x))
+RECURSIVE ILeafAll(_, _)
+ILeafAll(ms, y) == IF ms = <<>> THEN y ELSE IMapLeaf(Head(ms), ILeafAll(Tail(ms), y))
+\* deviation "imapafter": every wrapper applies its inverse map to the PARAMETERS its inner geometry returned: imj(..im1(.))
+RECURSIVE ILeafFwd(_, _)
+ILeafFwd(ms, y) == IF ms = <<>> THEN y ELSE ILeafFwd(Tail(ms), IMapLeaf(Head(ms), y))
+
+\* Function values of a mapped geometry are held exactly (entry-wise rationals in node space) when every map is exact and
+\* the inner function values are node values (all kinds but kl, whose functions are held in mode coordinates: an
+\* entry-wise non-linear map does not act on those).  Otherwise the value is *tagged*: [maps, arg] = "the maps applied
+\* entry-wise to the node values of the inner function arg"; the inverse maps undo exactly that and nothing else.
+Exact(k)  == k.kind # "kl" /\ \A i \in 1..Len(k.maps) : ExactMap(k.maps[i])
+Tagged(k) == IsMapped(k) /\ ~Exact(k)
 Lift(k, op(_), v) == IF Is2D(k) THEN F([i \in 1..Len(v) |-> [j \in 1..Len(v[i]) |-> op(v[i][j])]])
                      ELSE F([i \in 1..Len(v) |-> op(v[i])])
+MapF(k, g)  == IF ~IsMapped(k) THEN g
+               ELSE IF Tagged(k) THEN [maps |-> k.maps, arg |-> g]
+               ELSE Lift(k, LAMBDA x : LeafAll(k.maps, x), g)
+IMapF(k, f) == IF ~IsMapped(k) THEN f
+               ELSE IF Tagged(k) THEN f.arg                                    \* f.maps = k.maps: see TaggedOK
+               ELSE Lift(k, LAMBDA y : ILeafAll(k.maps, y), f)
+Bare(k, f)  == IF Tagged(k) THEN f.arg ELSE f                                  \* the array that carries the shape
+IrrVec(d)   == [i \in 1..d |-> Irr]
 
+\* ---- the four maps on one value (nested sequences of rationals) ----------------------------------------
 Reshape(k, p) == F([i \in 1..k.r |-> [j \in 1..k.cc |-> p[PIdx(k, i, j)]]])
 Ravel(k, f)   == F([q \in 1..(k.r * k.cc) |-> f[RRow(k, q)][RCol(k, q)]])
 
 P2FBase(k, p) ==
     CASE k.kind = "ident" -> p
-      [] k.kind \in {"image", "mapped"} -> IF Is2D(k) THEN Reshape(k, p) ELSE p
+      [] k.kind = "image" -> IF Is2D(k) THEN Reshape(k, p) ELSE p
       [] k.kind = "kl" -> F([i \in 1..EffN(k) |-> IF i <= ParDim(k) /\ i <= KLCached(k) THEN RMul(KLCoef(i), p[i]) ELSE Zero])
       \* zeros, then every step writes its value on its nodes
       [] k.kind = "step" -> F([j \in 1..k.n |-> IF Covered(k, j - 1) THEN p[StepOf(k, j - 1) + 1] ELSE Zero])
 F2PBase(k, f) ==
     CASE k.kind = "ident" -> f
-      [] k.kind \in {"image", "mapped"} -> IF Is2D(k) THEN Ravel(k, f) ELSE f
+      [] k.kind = "image" -> IF Is2D(k) THEN Ravel(k, f) ELSE f
       [] k.kind = "kl" -> F([i \in 1..ParDim(k) |-> IF i <= KLCached(k) THEN RDiv(f[i], KLCoef(i)) ELSE Zero])
       [] k.kind = "step" -> F([i \in 1..k.s |-> LET nodes == SetToSeq(indices[i])
                                                 IN Project(k.proj, [q \in 1..Len(nodes) |-> f[nodes[q] + 1]])])
-P2F(k, p) == IF k.kind = "mapped" THEN Lift(k, MapLeaf, P2FBase(k, p)) ELSE P2FBase(k, p)
-F2P(k, f) == IF k.kind = "mapped" THEN F2PBase(k, Lift(k, IMapLeaf, f)) ELSE F2PBase(k, f)
+\* MappedGeometry, structurally:  par2fun = Map . inner.par2fun,   fun2par = inner.fun2par . IMap
+InnerPar2Fun(k, p) == P2FBase(k, p)
+InnerFun2Par(k, f) == F2PBase(k, f)
+MappedPar2Fun(k, p) == MapF(k, InnerPar2Fun(k, p))
+MappedFun2Par(k, f) ==
+    IF Dev = "imapafter"
+    THEN \* IMapAfterInnerFun2Par: the inner projection is applied to the mapped function, the inverse maps to its result
+         IF Tagged(k) THEN IrrVec(ParDim(k))                                   \* not a function of the pre-image alone
+         ELSE LET q == InnerFun2Par(k, f) IN F([i \in 1..Len(q) |-> ILeafFwd(k.maps, q[i])])
+    ELSE InnerFun2Par(k, IMapF(k, f))
+P2F(k, p) == IF IsMapped(k) THEN MappedPar2Fun(k, p) ELSE P2FBase(k, p)
+F2P(k, f) == IF IsMapped(k) THEN MappedFun2Par(k, f) ELSE F2PBase(k, f)
 \* vector form: the function itself when it is one-dimensional, else the inner geometry's ravel (no inverse map!)
-F2V(k, f) == IF Is2D(k) THEN Ravel(k, f) ELSE f
-V2F(k, v) == IF Is2D(k) THEN Reshape(k, v) ELSE v
+F2V(k, f) == IF ~Is2D(k) THEN f ELSE IF Tagged(k) THEN [maps |-> f.maps, arg |-> Ravel(k, f.arg)] ELSE Ravel(k, f)
+V2F(k, v) == IF ~Is2D(k) THEN v ELSE IF Tagged(k) THEN [maps |-> v.maps, arg |-> Reshape(k, v.arg)] ELSE Reshape(k, v)
 
 \* ---- test inputs -----------------------------------------------------------------------------------------
 Unit(d, q)  == [i \in 1..d |-> IF i = q THEN One ELSE Zero]
 P0(k, w)    == F([i \in 1..ParDim(k) |-> R(i + 10 * (w - 1))])                     \* column w of a parameter batch
-F0(k, w)    == IF Is2D(k) THEN F([i \in 1..k.r |-> [j \in 1..k.cc |-> R(((i - 1) * k.cc + j) * ((i - 1) * k.cc + j) + w)]])
-               ELSE F([j \in 1..FunDim(k) |-> R(j * j + w)])                         \* column w of a function batch
+\* a lattice function that is not in the range of the (inner) par2fun; column w of a function batch
+G0(k, w)    == IF Is2D(k) THEN F([i \in 1..k.r |-> [j \in 1..k.cc |-> R(((i - 1) * k.cc + j) * ((i - 1) * k.cc + j) + w)]])
+               ELSE F([j \in 1..FunDim(k) |-> R(j * j + w)])
+\* mapped geometries: its image under the maps (in the range of the maps, not of par2fun; G0 is its pre-image)
+F0(k, w)    == MapF(k, G0(k, w))
 
 \* ---- numpy's reshape-based batch handling of Image2D / Continuous2D, index by index --------------------
 \* a (par_dim, W) matrix is flattened in `order` and refilled into (r, cc, W) in `order`
@@ -248,10 +302,10 @@ Idempotent(k) ==
     /\ (k.kind = "kl" => LET g == P2F(k, F2P(k, F0(k, 1))) IN P2F(k, F2P(k, g)) = g)
     /\ (k.kind = "step" => \A pr \in {"mean", "min", "max"} :
             LET kk == StepProj(k, pr)  g == P2F(kk, F2P(kk, F0(kk, 1))) IN P2F(kk, F2P(kk, g)) = g)
-    /\ (k.kind \in {"ident", "image", "mapped"} => P2F(k, F2P(k, F0(k, 1))) = F0(k, 1))     \* exact inverses
+    /\ (k.kind \in {"ident", "image"} => P2F(k, F2P(k, F0(k, 1))) = F0(k, 1))     \* exact inverses (mapped or not)
 
 Columnwise(k) ==
-    (k.kind = "image" /\ Is2D(k)) =>
+    (k.kind = "image" /\ Is2D(k) /\ ~IsMapped(k)) =>
         \A W \in {2, 3} :
             LET M == F([a \in 1..ParDim(k) |-> [w \in 1..W |-> P0(k, w)[a]]])
                 T == BatchReshape(k, M, W)
@@ -259,10 +313,21 @@ Columnwise(k) ==
 
 ShapeOf(k, v, twoD) == IF twoD THEN <<Len(v), Len(v[1])>> ELSE <<Len(v)>>
 Shapes(k) ==
-    /\ ShapeOf(k, P2F(k, P0(k, 1)), Is2D(k)) = FunShape(k)
+    /\ ShapeOf(k, Bare(k, P2F(k, P0(k, 1))), Is2D(k)) = FunShape(k)
     /\ Len(F2P(k, F0(k, 1))) = ParDim(k)
-    /\ (HasVec(k) => Len(F2V(k, F0(k, 1))) = FunvecDim(k))
-    /\ (HasVec(k) => ShapeOf(k, V2F(k, F2V(k, F0(k, 1))), Is2D(k)) = FunShape(k))
+    /\ (HasVec(k) => Len(Bare(k, F2V(k, F0(k, 1)))) = FunvecDim(k))
+    /\ (HasVec(k) => ShapeOf(k, Bare(k, V2F(k, F2V(k, F0(k, 1)))), Is2D(k)) = FunShape(k))
+
+\* MappedGeometry: fun2par of a mapped function - also one outside the range of par2fun - is the inner geometry's
+\* fun2par (inverse / documented projection) of its pre-image under the maps; the lattice is never left
+FlatLeaves(k, f) == IF Is2D(k) THEN {f[i][j] : i \in 1..k.r, j \in 1..k.cc} ELSE {f[i] : i \in 1..Len(f)}
+NoIrr(k) == /\ \A x \in FlatLeaves(k, Bare(k, P2F(k, P0(k, 2)))) : ~IsIrr(x)
+            /\ \A i \in 1..ParDim(k) : ~IsIrr(F2P(k, F0(k, 1))[i]) /\ ~IsIrr(F2P(k, P2F(k, P0(k, 2)))[i])
+MappedProjection(k) ==
+    IsMapped(k) => /\ F2P(k, MapF(k, G0(k, 1))) = F2P(Inner(k), G0(k, 1))
+                   /\ F2P(k, MapF(k, P2F(Inner(k), P0(k, 2)))) = P0(k, 2)
+                   /\ (Tagged(k) => P2F(k, P0(k, 1)).maps = k.maps)
+                   /\ NoIrr(k)
 
 IndexTable(k) == IF Is2D(k) THEN F([i \in 1..k.r |-> [j \in 1..k.cc |-> PIdx(k, i, j) - 1]]) ELSE <<>>
 
@@ -274,7 +339,13 @@ MapsRec(k) ==
      stepof |-> IF k.kind = "step" THEN StepTable(k) ELSE <<>>,
      boundary |-> IF k.kind = "step" THEN F([j \in 1..k.n |-> OnBoundary(k, j - 1)]) ELSE <<>>,
      coefs |-> IF k.kind = "kl" THEN F([i \in 1..ParDim(k) |-> KLCoef(i)]) ELSE <<>>,
-     f0 |-> F0(k, 1),
+     \* g0: a lattice function; the function handed to fun2par is f0 = maps(g0) (= g0 without maps).  f0 / p2f are the
+     \* spec's exact values where it holds them (p2f: par2fun of the basis vectors and of the ramp P0)
+     tagged |-> Tagged(k),
+     g0 |-> G0(k, 1),
+     f0 |-> IF Tagged(k) THEN <<>> ELSE F0(k, 1),
+     p2f |-> IF IsMapped(k) /\ ~Tagged(k)
+             THEN F([q \in 1..(ParDim(k) + 1) |-> P2F(k, IF q <= ParDim(k) THEN Unit(ParDim(k), q) ELSE P0(k, 1))]) ELSE <<>>,
      f2p |-> IF k.kind = "step" THEN <<>> ELSE F2P(k, F0(k, 1)),
      f2p_mean |-> IF k.kind = "step" THEN F2P(StepProj(k, "mean"), F0(k, 1)) ELSE <<>>,
      f2p_min  |-> IF k.kind = "step" THEN F2P(StepProj(k, "min"), F0(k, 1)) ELSE <<>>,
@@ -286,6 +357,8 @@ Maps ==
         /\ (c.kind = "step" \/ (Bijection(c) /\ RoundTrip(c) /\ Columnwise(c) /\ Shapes(c)))
         /\ (c.kind = "step" => \A pr \in {"mean", "min", "max"} : RoundTrip(StepProj(c, pr)) /\ Shapes(StepProj(c, pr)))
         /\ Idempotent(c)
+        /\ (c.kind = "step" => \A pr \in {"mean", "min", "max"} : MappedProjection(StepProj(c, pr)))
+        /\ (c.kind # "step" => MappedProjection(c))
         /\ (Emit => PrintT("@@CASE " \o ToJson(MapsRec(c)) \o " @@END"))
 
 \* the same properties one by one (used by the deviation configurations to name what breaks)
@@ -293,6 +366,8 @@ PartitionInv  == mode = "maps" => Partition(c)
 RoundTripInv  == mode = "maps" => IF c.kind = "step" THEN \A pr \in {"mean", "min", "max"} : RoundTrip(StepProj(c, pr))
                                   ELSE RoundTrip(c)
 ColumnwiseInv == mode = "maps" => Columnwise(c)
+MappedRoundTripInv  == mode = "maps" /\ IsMapped(c) /\ c.kind # "step" => RoundTrip(c)
+MappedProjectionInv == mode = "maps" /\ IsMapped(c) /\ c.kind = "step" /\ c.maps = <<"cube">> => MappedProjection(StepProj(c, "mean"))
 
 \* ---- the conversion automaton (mode "conv") ---------------------------------------------------------------------
 Fun1D(k) == ~Is2D(k)
